@@ -155,7 +155,7 @@ def _wasserstein_compute(
 
     # Calculate the CDF of x and y using their weights, if specified
     if x_weights is None:
-        x_cdf = x_cdf_indices.to(device) / x.size(0)
+        x_cdf = x_cdf_indices.to(device=device, dtype=x.dtype) / x.size(0)
     else:
         x_sorted_cum_weights = torch.cat(
             (torch.Tensor([0]).to(device), torch.cumsum(x_weights[x_sorter], dim=0))
@@ -163,7 +163,7 @@ def _wasserstein_compute(
         x_cdf = x_sorted_cum_weights[x_cdf_indices] / x_sorted_cum_weights[-1]
 
     if y_weights is None:
-        y_cdf = y_cdf_indices.to(device) / y.size(0)
+        y_cdf = y_cdf_indices.to(device=device, dtype=y.dtype) / y.size(0)
     else:
         y_sorted_cum_weights = torch.cat(
             (torch.Tensor([0]).to(device), torch.cumsum(y_weights[y_sorter], dim=0))
